@@ -137,11 +137,69 @@ func (x c03Vectors) forkTest(w c01Effect, ft core.Fact) (c03Entry, bool, bool) {
 
 // forkOf: matcher for "the entry of (my | the other) vector is (not) fork-detected" in view w; boolean
 // locals holding the test are looked through.
+//
+// In the anchor itself a test may also be a call of a module predicate whose body is one returned
+// boolean expression (`if hisSeq.observesNothing() { continue }` with `return seq.Seq == 0 &&
+// !seq.IsForkDetected()`): the edge then carries the facts that the predicate's result implies, read in
+// the predicate's view (its receiver and parameters stand for the anchor's expressions at the call).
 func (x c03Vectors) forkOf(w c01Effect, mine, want bool) func(core.Fact) bool {
+	in := func(v c01Effect) func(core.Fact) bool {
+		return func(ft core.Fact) bool {
+			en, truth, ok := x.forkTest(v, ft)
+			return ok && truth == want && en.mine == mine
+		}
+	}
 	return c01FactThrough(w.G, func(ft core.Fact) bool {
-		en, truth, ok := x.forkTest(w, ft)
-		return ok && truth == want && en.mine == mine
+		if in(w)(ft) {
+			return true
+		}
+		if w.G != w.Caller {
+			return false // views are one level deep
+		}
+		pv, subs, ok := c03PredicateFacts(w.G, ft)
+		if !ok {
+			return false
+		}
+		m := c01FactThrough(pv.G, in(pv))
+		for _, sub := range subs {
+			if m(sub) {
+				return true
+			}
+		}
+		return false
 	})
+}
+
+// c03PredicateFacts: the fact says that a call of a module function, whose body is a single returned
+// boolean expression, is true/false; returns the callee as a view and the facts which that result implies
+// about the returned expression (conjuncts of a true conjunction, disjuncts of a false disjunction).
+// Candidate for promotion to core: "facts through pure predicates".
+func c03PredicateFacts(g *core.FuncInfo, ft core.Fact) (c01Effect, []core.Fact, bool) {
+	e, truth, ok := c01BoolOperand(g.Info(), ft)
+	if !ok {
+		return c01Effect{}, nil, false
+	}
+	call, ok := resolveLocal(g, e).(*ast.CallExpr)
+	if !ok {
+		return c01Effect{}, nil, false
+	}
+	cs := c01CallSiteOf(g, call)
+	if cs == nil {
+		return c01Effect{}, nil, false
+	}
+	fn, ok := cs.Callee.(*types.Func)
+	if !ok {
+		return c01Effect{}, nil, false
+	}
+	h := g.P.FuncOf(fn)
+	if h == nil || h == g || h.Body == nil || len(h.Body.List) != 1 {
+		return c01Effect{}, nil, false
+	}
+	ret, ok := h.Body.List[0].(*ast.ReturnStmt)
+	if !ok || len(ret.Results) != 1 {
+		return c01Effect{}, nil, false
+	}
+	return c01Effect{Caller: g, At: cs, G: h, Eff: cs}, core.Decompose(ret.Results[0], truth), true
 }
 
 // selfWrites: the Set/SetForkDetected calls of w.G on the anchor's receiver.
@@ -247,7 +305,9 @@ func c03Absorb(c *core.Ctx) {
 				}
 			}
 		}
-		c.ExpectAtLeast("entry writes in CollectFrom", n, 3)
+		// (one write is enough for the obligation not to be vacuous; that a marker write exists is part of
+		// the next check — how many plain stores the merge needs is not the rule's business)
+		c.ExpectAtLeast("entry writes in CollectFrom", n, 1)
 		okF = okF && nEdges >= 1 && nSFD >= 1
 		c.Check(okF, "a fork-detected source entry makes the entry fork-detected", "T17 Typestate", cf.Pos(), "the hisSeq.IsForkDetected() edge always reaches SetForkDetected in the same iteration (unless the entry is fork-detected already)", "a fork seen by a parent is not propagated to the child ("+witF+")")
 
